@@ -529,7 +529,7 @@ fn scenarios(plant_opt: Option<&str>) -> Vec<Scenario> {
         const P53: i64 = 1 << 53;
         let far = i64::MAX - 1;
         // (bound, quick tier?)  bounds that an f64 represents exactly come first
-        let bounds: Vec<(i64, bool)> = vec![(P53, true), (-P53, true), (P53 + 1, false), (-(P53 + 1), false), (i64::MAX - 1, true), (-(i64::MAX - 1), false)];
+        let bounds: Vec<(i64, bool)> = vec![(P53, true), (-P53, true), (P53 + 1, false), (-(P53 + 1), false), (i64::MAX - 1, false), (-(i64::MAX - 1), false)];
         for (b, quick) in bounds {
             let vals: Vec<V> = {
                 let mut xs = vec![b - 1, b, b + 1, far, -far];
@@ -1086,7 +1086,7 @@ impl Check for C09 {
         let mut s = Spec::new(
             "C09",
             "model_checking",
-            "per schema (PRIMARY KEY int/text; UNIQUE int/text/composite with NULLs; NOT NULL with and without DEFAULT; column- and table-level CHECK in 17 forms over INT/REAL/TEXT and a <,<=,>,>= b on BIGINT for b = +-2^53, 2^63-2 (thorough also +-(2^53+1), -(2^63-2)) with values NULL, b-1, b, b+1, +-(2^63-2); FOREIGN KEY with RESTRICT, CASCADE and no action) every history of single-row INSERT, UPDATE of key and non-key columns, DELETE (one key / all; multi-row DELETEs of 2-3 preloaded parents of which the first / a non-first / several are referenced), TRUNCATE of the parent, BEGIN/ROLLBACK/COMMIT over 2 key values + NULL (CHECK: values NULL,-1,0,1,10 / 'x','y' / -1.0,0.0,1.5,10.0) up to depth 3 (quick) / 4-5 (thorough) is executed on a fresh real Database in lock-step with the relational model; a case is one history (no merging: hidden index/tombstone state), non-trivial when its last step is a write; Ok/Err of every write is compared with the model's verdict on the resulting state and the stored tables are re-checked against every declaration by an independent evaluator; a history is cut at its first divergence (all histories that do not run through a divergence are still explored to full depth)",
+            "per schema (PRIMARY KEY int/text; UNIQUE int/text/composite with NULLs; NOT NULL with and without DEFAULT; column- and table-level CHECK in 17 forms over INT/REAL/TEXT and a <,<=,>,>= b on BIGINT for b = +-2^53 (thorough also +-(2^53+1), +-(2^63-2)) with values NULL, b-1, b, b+1, +-(2^63-2); FOREIGN KEY with RESTRICT, CASCADE and no action) every history of single-row INSERT, UPDATE of key and non-key columns, DELETE (one key / all; multi-row DELETEs of 2-3 preloaded parents of which the first / a non-first / several are referenced), TRUNCATE of the parent, BEGIN/ROLLBACK/COMMIT over 2 key values + NULL (CHECK: values NULL,-1,0,1,10 / 'x','y' / -1.0,0.0,1.5,10.0) up to depth 3 (quick) / 4-5 (thorough) is executed on a fresh real Database in lock-step with the relational model; a case is one history (no merging: hidden index/tombstone state), non-trivial when its last step is a write; Ok/Err of every write is compared with the model's verdict on the resulting state and the stored tables are re-checked against every declaration by an independent evaluator; a history is cut at its first divergence (all histories that do not run through a divergence are still explored to full depth)",
         );
         s.assumptions = &[
             "SQL-standard end-of-statement constraint semantics as implemented by refmodel::sql::rel (cross-checked against SQLite); no ON UPDATE actions; a FOREIGN KEY without ON DELETE refuses the delete of a referenced parent",
